@@ -13,9 +13,9 @@ import (
 func init() {
 	register(&Property{
 		ID:          "C13",
-		Explanation: "Decided structurally (timing itself is not): checkLeaderLease counts a server only if it is a Voter, self once, others only when now - LastContact() <= LeaderLeaseTimeout; its only state change is setState(Follower) under contacted < quorumSize(), so a leader whose voter majority answered within the lease is never deposed by this check; the returned maxDiff is only ever assigned a diff that passed diff <= leaseTimeout, hence lease - maxDiff >= 0; the leader loop's next check interval is that difference clamped below by minCheckInterval and the timer is re-armed on every pass through the lease arm, the first timer being LeaderLeaseTimeout, so the check recurs at most one lease apart; a follower's last-contact time is refreshed only on RPCs that returned without error (or decoded pipeline responses) and initialised to now only when replication to it starts; ValidateConfig rejects LeaderLeaseTimeout > HeartbeatTimeout and ElectionTimeout < HeartbeatTimeout and is called before a configuration is used; quorumSize is a strict voter majority.",
+		Explanation: "Decided structurally (timing itself is not): checkLeaderLease counts a server only if it is a Voter, self once, others only when now - LastContact() <= LeaderLeaseTimeout; its only state change is setState(Follower) under contacted < quorumSize(), so a leader whose voter majority answered within the lease is never deposed by this check; the returned maxDiff is only ever assigned a diff that passed diff <= leaseTimeout, hence lease - maxDiff >= 0; the leader loop's next check interval is that difference clamped below by minCheckInterval and the timer is re-armed on every pass through the lease arm, the first timer being LeaderLeaseTimeout, so the check recurs at most one lease apart; a follower's last-contact time is refreshed only on RPCs that returned without error (or decoded pipeline responses) and initialised to now only when replication to it starts; ValidateConfig rejects LeaderLeaseTimeout > HeartbeatTimeout and ElectionTimeout < HeartbeatTimeout and is called before a configuration is used; quorumSize is a strict voter majority; on the follower side an election is started only after time.Since(LastContact()) < HeartbeatTimeout was false, every AppendEntries answered with Success refreshes LastContact, and the leader sends idle heartbeats every randomTimeout(HeartbeatTimeout/10) with a failure back-off capped at HeartbeatTimeout/2, both below the follower's timeout.",
 		NotDecided:  "wall-clock behaviour: that the main loop is scheduled, that the step-down happens within 2x the lease in real time, and that a healthy cluster's responses always arrive in time.",
-		RuleText:    "C13.R1 counter discipline and sole state change in checkLeaderLease; R2 clamp shape and re-arm of the lease timer; R3 setLastContact caller table with response guards; R4 ValidateConfig relations and its callers; R5 S-QUORUM.",
+		RuleText:    "C13.R1 counter discipline and sole state change in checkLeaderLease; R2 clamp shape and re-arm of the lease timer; R3 setLastContact caller table with response guards; R4 ValidateConfig relations and its callers; R5 S-QUORUM; R6 follower side: candidate transition guarded by a silent HeartbeatTimeout, accepted AppendEntries refresh the contact time, idle heartbeat interval strictly below HeartbeatTimeout, cappedExponentialBackoff never above its cap.",
 		Run:         c13,
 	})
 }
@@ -26,6 +26,133 @@ func c13(c *Ctx) {
 	c13R3(c, "R3")
 	c13R4(c, "R4")
 	sQuorum(c, "R5/S-QUORUM")
+	c13R6(c, "R6")
+}
+
+// c13R6: the follower side of "a healthy cluster keeps one leader and one
+// term": a follower stands for election only when it has not heard from a
+// leader for a whole HeartbeatTimeout, every accepted AppendEntries refreshes
+// that contact time, and the leader's idle heartbeats are spaced (including
+// jitter and the failure back-off) strictly below that timeout.
+func c13R6(c *Ctx, rule string) {
+	if fn := c.Fn(rule, "(*Raft).runFollower"); fn != nil {
+		r := c.Run(&engine.Automaton{Fn: fn, Tracks: []engine.Track{
+			engine.PredCond("fresh", func(cd engine.Cond) (bool, int) {
+				cd, _ = cd.WithY(func(d string) bool { return d == "recv.config().HeartbeatTimeout" })
+				if cd.IsRel && cd.X == "time.Since(recv.LastContact())" && cd.Y == "recv.config().HeartbeatTimeout" {
+					switch cd.EdgeOrd(true) {
+					case engine.LT, engine.LT | engine.EQ:
+						return true, engine.True
+					case engine.GT, engine.GT | engine.EQ:
+						return true, engine.False
+					}
+				}
+				return false, 0
+			}),
+			engine.Event("loop", func(in ssa.Instruction) bool { _, ok := in.(*ssa.Select); return ok }, "fresh"),
+		}})
+		n := 0
+		for _, s := range c.P.CallsIn(fn, engine.Is("(*Raft).setState")) {
+			if c.P.Arg(s.Instr, 0) != "Candidate" {
+				continue
+			}
+			n++
+			c.RequireAt(r, rule, "runFollower:stands-only-after-silent-heartbeat-timeout", s.Instr, "the follower becomes a candidate only when, in this iteration, time.Since(LastContact()) < HeartbeatTimeout was evaluated false", func(v engine.View) bool { return v.F("fresh") })
+		}
+		if n == 0 {
+			c.Bad(rule, "runFollower:candidate-transition", c.P.Pos(fn.Pos()), "a setState(Candidate)", "none")
+		}
+	}
+	if fn := c.Fn(rule, "(*Raft).setLastContact"); fn != nil {
+		ok := false
+		if f := c.P.LookupField("Raft", "lastContact"); f != nil {
+			for _, w := range c.P.FieldWritesIn(fn, f) {
+				v, _ := c.P.StoredValue(w.Instr, f)
+				ok = c.P.D(v) == "time.Now()"
+			}
+			c.WhoMay(rule, "write Raft.lastContact", c.P.FieldWrites(f), map[string]string{"(*Raft).setLastContact": "now"})
+		}
+		c.Check(rule, "setLastContact:now", c.P.Pos(fn.Pos()), "the contact time recorded is the current time", ok, pick(ok, "time.Now()", "something else"), 1)
+	}
+	if fn := c.Fn(rule, "(*Raft).LastContact"); fn != nil {
+		ok := false
+		for _, ret := range engine.ReturnsOf(fn) {
+			ok = c.P.D(engine.ReturnValues(ret)[0]) == "recv.lastContact"
+		}
+		c.Check(rule, "Raft.LastContact:returns-field", c.P.Pos(fn.Pos()), "LastContact returns the recorded contact time", ok, pick(ok, "recv.lastContact", "something else"), 1)
+	}
+	if fn := c.Fn(rule, "(*Raft).appendEntries"); fn != nil {
+		r := c.Run(&engine.Automaton{Fn: fn, Tracks: []engine.Track{
+			engine.Event("accepted", func(in ssa.Instruction) bool {
+				st, ok := in.(*ssa.Store)
+				return ok && strings.HasSuffix(c.P.D(st.Addr), ".Success") && c.P.D(st.Val) == "true"
+			}),
+			engine.Event("contact", c.P.IsCallTo(engine.Is("(*Raft).setLastContact"))),
+		}})
+		n := 0
+		for i, ret := range engine.ReturnsOf(fn) {
+			vs := r.StatesAt(ret)
+			acc := false
+			for _, v := range vs {
+				if v.Seen("accepted") {
+					acc = true
+				}
+			}
+			if !acc {
+				continue
+			}
+			n++
+			c.RequireAt(r, rule, fmt.Sprintf("appendEntries:accepted-request-refreshes-contact#%d", i+1), ret, "every return that reports Success has refreshed the follower's last-contact time (else a healthy leader's heartbeats do not stop the election timer)", func(v engine.View) bool { return !v.Seen("accepted") || v.Seen("contact") })
+		}
+		if n == 0 {
+			c.Bad(rule, "appendEntries:success-return", c.P.Pos(fn.Pos()), "a return after Success = true", "none")
+		}
+	}
+	if fn := c.Fn(rule, "(*Raft).heartbeat"); fn != nil {
+		const pre = "randomTimeout((recv.config().HeartbeatTimeout / "
+		n := 0
+		engine.EachInstr(fn, func(in ssa.Instruction) {
+			sel, ok := in.(*ssa.Select)
+			if !ok {
+				return
+			}
+			for _, st := range sel.States {
+				d := c.P.D(st.Chan)
+				if !strings.HasPrefix(d, "randomTimeout(") {
+					continue
+				}
+				n++
+				k := int64(0)
+				if strings.HasPrefix(d, pre) {
+					fmt.Sscanf(strings.TrimSuffix(strings.TrimPrefix(d, pre), "))"), "%d", &k)
+				}
+				c.Check(rule, "heartbeat:interval-below-timeout", c.P.InstrPos(in), "idle heartbeats are sent every randomTimeout(HeartbeatTimeout/k) with k >= 2, i.e. less than HeartbeatTimeout apart including jitter (randomTimeout(d) < 2d, C12.R4)", k >= 2, "timer "+d, 1)
+			}
+		})
+		if n != 1 {
+			c.Bad(rule, "heartbeat:interval", c.P.Pos(fn.Pos()), "one randomTimeout arm in the heartbeat select", fmt.Sprintf("%d", n))
+		}
+	}
+	if fn := c.Fn(rule, "cappedExponentialBackoff"); fn != nil {
+		r := c.Run(&engine.Automaton{Fn: fn, Tracks: []engine.Track{
+			engine.PredCond("over", func(cd engine.Cond) (bool, int) {
+				cd, _ = cd.WithY(func(d string) bool { return d == "p4" })
+				if cd.IsRel && cd.Y == "p4" && strings.HasPrefix(cd.X, "phi(") {
+					if cd.EdgeOrd(true) == engine.GT {
+						return true, engine.True
+					}
+					if cd.EdgeOrd(true) == engine.LT|engine.EQ {
+						return true, engine.False
+					}
+				}
+				return false, 0
+			}),
+		}})
+		for i, ret := range engine.ReturnsOf(fn) {
+			d := c.P.D(engine.ReturnValues(ret)[0])
+			c.RequireAt(r, rule, fmt.Sprintf("cappedExponentialBackoff:never-above-cap#%d", i+1), ret, "the result is the cap itself or a value just tested not to exceed it", func(v engine.View) bool { return d == "p4" || v.F("over") })
+		}
+	}
 }
 
 func c13R1(c *Ctx, rule string) {
